@@ -5,7 +5,7 @@
 (* is reported (MISMATCH line) and validation continues with the state      *)
 (* advanced from what the implementation really did.                        *)
 (***************************************************************************)
-EXTENDS Import, Strings, Pem, KeyLife, PathValidation, Cli, Purity, Outcome, TLC, Json, IOUtils
+EXTENDS Import, Strings, Pem, KeyLife, PathValidation, Cli, Purity, Outcome, Secrets, TLC, Json, IOUtils
 
 Rec == ndJsonDeserialize(IOEnv.TRACE)
 
@@ -96,6 +96,7 @@ CovOf(ev) ==
     [] ev.op = "Gen" /\ ev.out = "Ok" -> { <<"gen", ev.be, ev.args.regKey>>, <<"genphase", ev.args.phase>> }
     [] ev.op = "Call" /\ <<ev.args.fn, ev.args.class>> \in GenCells \cup DocCells -> { <<"call", ev.args.fn, ev.args.class>> }
     [] ev.op = "Sweep" /\ <<ev.args.fn, ev.args.class>> \in ParseCells -> { <<"sweep", ev.args.fn, ev.args.class>> }
+    [] ev.op = "Channel" -> { <<"channel", ev.args.channel, ev.args.keyType>> }
     [] ev.op = "Build" -> { <<"build", ev.args.what, ev.args.backend, ev.args.pem, ev.args.x509parser, ev.args.zeroize>> }
     [] OTHER -> {}
 PemResiduesCovered == \A k \in {"cert", "csr", "crl"} : \A r \in 0..47 : <<"pem", k, r>> \in cov
@@ -139,6 +140,7 @@ ReqOf(ev) ==
      [] ev.op = "Gen" -> (IF ev.out = "Ok" THEN ReqGen(reg, ev.be, ev.args, ev.obs) ELSE {<<"C15.generation_succeeds", FALSE>>})
      [] ev.op = "Call" -> ReqCall(ev.args, ev.out)
      [] ev.op = "Sweep" -> ReqSweep(ev.args, ev.obs)
+     [] ev.op = "Channel" -> ReqChannel(ev.args, ev.obs)
      [] ev.op = "Build" -> { <<"C16.feature_combination_builds", ev.obs.ok>> }
      [] ev.op = "KeyXfer" ->
           { <<"C16.exported_key_loads_in_other_back_end",
@@ -176,6 +178,7 @@ Done == /\ l = Len(Rec) + 1
                   \o ";covTokens=" \o ToString(Cardinality(cov))
                   \o ";matrixCellsMissing=" \o ToString(Cardinality({c \in GenCells \cup DocCells : <<"call", c[1], c[2]>> \notin cov}))
                   \o ";parserCellsMissing=" \o ToString(Cardinality({c \in ParseCells : <<"sweep", c[1], c[2]>> \notin cov}))
+                  \o ";channelsMissing=" \o ToString(Cardinality({c \in Channels : \A y \in cov : ~(y[1] = "channel" /\ y[2] = c)}))
                   \o ";featureSets=" \o ToString(Cardinality({y \in cov : y[1] = "build" /\ y[2] = "rcgen"}))
                   \o ";genBackends=" \o ToString(Cardinality({x[2] : x \in {y \in cov : y[1] = "gen"}}))
                   \o ";registers=" \o ToString(Cardinality(DOMAIN reg)))
